@@ -131,7 +131,7 @@ def step (st : State) (w : List String) : State × String :=
     | some hops, some el, some qt =>
       -- an uncached name is simply absent from the cache
       let cache := hops
-      let qtOK := qt == 1
+      let qtOK := recomposableTypes.contains qt
       match cache[0]? with
       | some h0 =>
         if h0.kind == .missing then (st, "noentry") else
@@ -256,6 +256,8 @@ def step (st : State) (w : List String) : State × String :=
     let w := match s.out with
       | .served .cut => cutStr (cutWireFull cdo qt) false
       | o => outStr o
+    -- srvh instances run with a 3 s query timeout
+    if budgetExhausted (((g "age").bind String.toNat?).getD 0) 3000 then (st, "wire=drop msg=drop") else
     (st, s!"wire={w} msg={m}")
   | _ => (st, "bad-op")
 
